@@ -33,6 +33,36 @@ func vC09[T vFC]() {
 	if routine != "Trace" {
 		b, bw = vC09Mk[T]("b", sb, lb)
 	}
+	if vCfgInt("mismatch") == 1 {
+		// operands whose contracted lengths differ: "any combination that is not supported is refused loudly" - an error
+		// or a panic, never a value - and the operands stay as they were
+		var err error
+		pan := vCatch(func() {
+			switch routine {
+			case "Inner":
+				if vCfgStr("api") == "func" {
+					_, err = Inner(a, b)
+				} else {
+					_, err = a.Inner(b)
+				}
+			case "MatVecMul":
+				_, err = a.MatVecMul(b)
+			case "MatMul":
+				if vCfgStr("api") == "dot" {
+					_, err = Dot(a, b)
+				} else {
+					_, err = a.MatMul(b)
+				}
+			}
+		})
+		vReach("C09")
+		vAssert(pan || err != nil, "mismatch-refused")
+		if !pan {
+			vC09Unchanged(a, aw, sa, "refused-a-unchanged")
+			vC09Unchanged(b, bw, sb, "refused-b-unchanged")
+		}
+		return
+	}
 	// expected result (shape + row-major content)
 	var rshape []int
 	var want []T
